@@ -290,6 +290,78 @@ class Ctx:
             self.cov["samples"].append(obj)
 
 
+class SourceCoverage:
+    """executed / never-executed lines and branches of /repo/src/diffcalc during the correspondence and oracle streams of one run,
+    summarised per anchored mechanism (properties.jsonl -> anchors.mechanism[].where) and per anchored file"""
+
+    def __init__(self, pid):
+        self.pid = pid
+        self.cov = None
+        if os.environ.get("VERIF_NO_SRCCOV"):
+            return
+        try:
+            import coverage
+            self.cov = coverage.Coverage(data_file=None, branch=True, include=[os.path.join(REPO, "src", "diffcalc", "*")], messages=False)
+        except Exception:  # noqa — measuring is optional
+            self.cov = None
+
+    def start(self):
+        if self.cov is not None:
+            try:
+                self.cov.start()
+            except Exception:  # noqa
+                self.cov = None
+
+    def stop(self):
+        if self.cov is not None:
+            try:
+                self.cov.stop()
+            except Exception:  # noqa
+                self.cov = None
+
+    @staticmethod
+    def _ranges(xs):
+        out, xs = [], sorted(xs)
+        for x in xs:
+            if out and x == out[-1][1] + 1:
+                out[-1][1] = x
+            else:
+                out.append([x, x])
+        return [f"{a}" if a == b else f"{a}-{b}" for a, b in out]
+
+    def report(self):
+        if self.cov is None:
+            return {"measured": False}
+        anchors = {}
+        for line in open(os.path.join(VERIF, "properties.jsonl")):
+            o = json.loads(line)
+            if o.get("id") == self.pid:
+                anchors = o.get("anchors") or {}
+        rep = {"measured": True, "files": {}, "mechanisms": []}
+        per_file = {}
+        for rel in anchors.get("files", []):
+            path = os.path.join(REPO, rel)
+            try:
+                _, stmts, _, missing, _ = self.cov.analysis2(path)
+            except Exception as e:  # noqa — file never imported / gone
+                rep["files"][rel] = {"error": str(e)[:80]}
+                continue
+            per_file[rel] = (set(stmts), set(missing))
+            rep["files"][rel] = {"statements": len(stmts), "executed": len(stmts) - len(missing)}
+        for m in anchors.get("mechanism", []):
+            w = m.get("where", "")
+            mm = re.match(r"^(.*?):(\d+)(?:-(\d+))?$", w)
+            if not mm or mm.group(1) not in per_file:
+                continue
+            lo = int(mm.group(2)); hi = int(mm.group(3) or lo)
+            stmts, missing = per_file[mm.group(1)]
+            st = {x for x in stmts if lo <= x <= hi}
+            ms = {x for x in missing if lo <= x <= hi}
+            rep["mechanisms"].append({"name": m.get("name"), "where": w, "statements": len(st), "executed": len(st) - len(ms),
+                                      "never_executed": self._ranges(ms)})
+        return rep
+
+
 def load_known():
     p = os.path.join(VERIF, "known_findings.json")
     if not os.path.exists(p):
